@@ -25,10 +25,11 @@ def units():
                   "function": "double64.c:double64_le_%s, double64_be_%s" % (nm.split("_")[1], nm.split("_")[1]), "timeout": 1200, "self_replay": True, "inputs": ["nd"], "replay_link": "all", "replay_exclude": [nm.split("_")[0] + ".c"],
                   "cbmc_flags": ["--unwind", "10"], "kind": "proof(full domain: every normal double precision value)",
                   "trusted": ["E1 models of frexp (normal doubles), pow (2.0, small integer), fmod (x, 1.0), written on the IEEE definitions"]})
-    for lay, fn in (("WAV", "wavlike_ima_seek"), ("AIFF", "aiff_ima_seek")):
+    for lay, fn in (("WAV", "wavlike_ima_seek"), ("AIFF", "aiff_ima_seek"), ("MS", "msadpcm_seek")):
         for ch in (1, 2):
-            U.append({"name": "ima.%s.ch%d" % (fn, ch), "props": ["C06"], "harness": "ima_seek.harness.c", "entry": "h_ima_seek", "enforce": fn, "replace": ["psf_fseek"],
-                      "function": "ima_adpcm.c:" + fn, "defines": ["-DLAYOUT_%s" % lay, "-DCH=%d" % ch], "timeout": 1200, "backend": "kissat",
+            U.append({"name": "%s.%s.ch%d" % ("msadpcm" if lay == "MS" else "ima", fn, ch), "props": ["C06"], "harness": "ima_seek.harness.c", "entry": "h_ima_seek", "enforce": fn,
+                      "replace": ["psf_fseek"] + (["msadpcm_decode_block"] if lay == "MS" else []),
+                      "function": ("ms_adpcm.c:" if lay == "MS" else "ima_adpcm.c:") + fn, "defines": ["-DLAYOUT_%s" % lay, "-DCH=%d" % ch], "timeout": 1200, "backend": "kissat",
                       "kind": "enumerated(block geometry of the %s layout, channels=%d)" % (lay, ch),
                       "trusted": ["decode_block_c: effect of the block decoders on blockcount/samplecount and the file position (frame contract, not enforced here)",
                                   "psf_fseek succeeds (failed repositioning is not reported by these functions: see not_decided)"]})
@@ -37,7 +38,7 @@ def units():
 
 NOT_DECIDED = {
     "C06": ["IMA seek: a failing psf_fseek inside the codec seek is ignored by the code (return value unchecked); the units assume repositioning succeeds",
-            "MS ADPCM, PAF24, SDS, ALAC, DWVW, GSM610 seek functions"],
+            "PAF24, SDS, ALAC, DWVW, GSM610 seek functions"],
     "C20": ["Microsoft ADPCM block decoder (published definitions disagree on truncating division vs arithmetic shift; no single reference)",
             "subnormal values and zero sign through the portable IEEE-754 serialisers (the property speaks of normal values)",
             "OKI/VOX codec (excluded by the property text)"],
